@@ -13,6 +13,7 @@ pub fn scenarios(thorough: bool) -> Vec<Scenario> {
     base.seal_actions = vec![None, Some(action_dest(1))];
     let mut pools = crate::props::c01::pool_cfg();
     pools.seal_actions = vec![None, Some(action_dest(2))];
+    pools.odd_shapes = true;
     let mut v = vec![
         sc("custom02-utxo", NetID::Custom02, 0, base.clone(), if thorough { 6 } else { 5 }),
         sc("custom02-pools", NetID::Custom02, 0, pools.clone(), if thorough { 8 } else { 6 }),
